@@ -274,7 +274,7 @@ func c04Close(c *Ctx, info *types.Info) {
 		if !ok || len(as.Lhs) != 1 || len(as.Rhs) != 1 {
 			return false
 		}
-		if canonPath(info, as.Lhs[0]) != "Vaxis.closed" {
+		if lhsPath(info, as.Lhs[0]) != "Vaxis.closed" {
 			return false
 		}
 		tv := info.Types[as.Rhs[0]]
@@ -525,7 +525,7 @@ func c04GuardStability(c *Ctx, info *types.Info) {
 				return true
 			}
 			for _, l := range as.Lhs {
-				if strings.HasPrefix(canonPath(info, l), "Vaxis.caps.") {
+				if strings.HasPrefix(lhsPath(info, l), "Vaxis.caps.") {
 					writers[fi.Name] = true
 				}
 			}
@@ -555,7 +555,7 @@ func c04GuardStability(c *Ctx, info *types.Info) {
 		switch t := n.(type) {
 		case *ast.AssignStmt:
 			for _, l := range t.Lhs {
-				if strings.HasPrefix(canonPath(info, l), "Vaxis.caps.") {
+				if strings.HasPrefix(lhsPath(info, l), "Vaxis.caps.") {
 					return true
 				}
 			}
